@@ -1,11 +1,11 @@
 """C04 -- ordinal round-trip: spelled ordinals become digits plus the ordinal marker (DESIGN.md section 3, C04)."""
 import vlib
-from checks import spell, streams
+from checks import spell, streams, scanner_mc
 
 
 def run(ctx):
     q = ctx.quick()
-    vlib.model_check(ctx, "MC_Spell", "MC_Spell_quick.cfg", workers=8, heap="6g")
+    scanner_mc.spell_mc(ctx, ordinals=True)
     prm = dict(kind="ord", upto=2200 if q else 1000000, rlow=[0], rhigh=[0], randn=1500 if q else 0, seed=ctx.seed % 100000)
     if not q:
         prm["upto"] = 200000
